@@ -1513,11 +1513,14 @@ method or constructor of some type."""
             while parent and (not parent.gi_name == 'GObject.Object'):
                 if parent == target:
                     break
-                if parent.parent_type:
+                if getattr(parent, 'parent_type', None):
                     parent = self._transformer.lookup_typenode(parent.parent_type)
                 else:
                     parent = None
-                if parent is None:
+                if parent is None or (parent.gi_name == 'GObject.Object'
+                                      and parent != target):
+                    # Walked up to the root (or off the known classes)
+                    # without meeting the returned type
                     message.warn_node(func,
                                       "Return value is not superclass for constructor; "
                                       "symbol='%s' constructed='%s' return='%s'" %
